@@ -45,14 +45,27 @@ package f64
 //@ reads x[int(ix)+k*int(incX)] for k in 0..int(n) ; y[int(iy)+k*int(incY)] for k in 0..int(n)
 //@ ensures disjoint(dst, x) && disjoint(dst, y) && int(incDst) != 0 ==> forall(k, 0, int(n), same(dst[int(idst)+k*int(incDst)], alpha*old(x[int(ix)+k*int(incX)]) + old(y[int(iy)+k*int(incY)])))
 
+// dotp: the defining sum of the dot product of the first n elements taken with
+// increments incX, incY from positions ix, iy (exact arithmetic, [real] clauses).
+//@ spec rec dotp(x []float64, y []float64, n int, ix int, incX int, iy int, incY int) float64 decreases n =
+//@      ite(n <= 0, 0, dotp(x, y, n-1, ix, incX, iy, incY) + y[iy+(n-1)*incY]*x[ix+(n-1)*incX])
+
 //@ func DotUnitary props: C01(frame) C07(safety) C08
 //@ requires len(y) >= len(x)
 //@ writes nothing
+//@ ensures [real] result == dotp(x, y, len(x), 0, 1, 0, 1)
+//@ ensures [real] result == dotp(y, x, len(x), 0, 1, 0, 1)
+//@ loop 1: invariant [real] sum == dotp(x, y, it, 0, 1, 0, 1)
+//@ invariant [real] sum == dotp(y, x, it, 0, 1, 0, 1)
 //@ reads x[k] for k in 0..len(x) ; y[k] for k in 0..len(x)
 
 //@ func DotInc props: C01(frame) C07(safety) C08
 //@ requires int(n) >= 0 && strided(x, int(ix), int(n), int(incX)) && strided(y, int(iy), int(n), int(incY))
 //@ writes nothing
+//@ ensures [real] result == dotp(x, y, int(n), int(ix), int(incX), int(iy), int(incY))
+//@ ensures [real] result == dotp(y, x, int(n), int(iy), int(incY), int(ix), int(incX))
+//@ loop 1: invariant [real] sum == dotp(x, y, i, int(old(ix)), int(incX), int(old(iy)), int(incY))
+//@ invariant [real] sum == dotp(y, x, i, int(old(iy)), int(incY), int(old(ix)), int(incX))
 //@ reads x[int(ix)+k*int(incX)] for k in 0..int(n) ; y[int(iy)+k*int(incY)] for k in 0..int(n)
 
 //@ func ScalUnitary props: C01(frame) C07(safety) C08
@@ -155,7 +168,12 @@ package f64
 //@ requires n == 0 || len(x) > (int(n)-1)*abs(int(incX))
 //@ requires m == 0 || len(y) > (int(m)-1)*abs(int(incY))
 //@ let ky = ite(int(incY) < 0, -(int(m)-1)*int(incY), 0)
+//@ let kx = ite(int(incX) < 0, -(int(n)-1)*int(incX), 0)
 //@ writes y[ky+k*int(incY)] for k in 0..int(m)
+// in exact arithmetic y[i] = beta*y[i] + alpha*(row i of A)·x: decided for unit increments on every
+// run, for all increments in the thorough tier ([realx]: the strided paths cost minutes of solver time)
+//@ ensures [real] incX == 1 && incY == 1 && y.rid != x.rid && y.rid != a.rid ==> forall(i, 0, int(m), y[i] == old(y[i])*beta + alpha*dotp(x, a[i*int(lda):i*int(lda)+int(n)], int(n), 0, 1, 0, 1))
+//@ ensures [realx] y.rid != x.rid && y.rid != a.rid ==> forall(i, 0, int(m), y[ky+i*int(incY)] == old(y[ky+i*int(incY)])*beta + alpha*dotp(x, a[i*int(lda):i*int(lda)+int(n)], int(n), kx, int(incX), 0, 1))
 //@ reads a[i*int(lda)+j] for i in 0..int(m), j in 0..int(n) ; x[ite(int(incX) < 0, -(int(n)-1)*int(incX), 0)+j*int(incX)] for j in 0..int(n)
 
 //@ func GemvT props: C01(frame) C07(safety) C08
@@ -165,5 +183,6 @@ package f64
 //@ requires m == 0 || len(x) > (int(m)-1)*abs(int(incX))
 //@ requires n == 0 || len(y) > (int(n)-1)*abs(int(incY))
 //@ let ky = ite(int(incY) < 0, -(int(n)-1)*int(incY), 0)
+//@ let kx = ite(int(incX) < 0, -(int(m)-1)*int(incX), 0)
 //@ writes y[ky+k*int(incY)] for k in 0..int(n)
 //@ reads a[i*int(lda)+j] for i in 0..int(m), j in 0..int(n) ; x[ite(int(incX) < 0, -(int(m)-1)*int(incX), 0)+i*int(incX)] for i in 0..int(m)
